@@ -271,6 +271,7 @@ func muxHarness(rc *RunCtx) {
 	}
 
 	finished := false
+	meddling := false
 	var infra string
 	var canary *muxCall
 	doneC := make(chan int, nCallers)
@@ -341,6 +342,23 @@ func muxHarness(rc *RunCtx) {
 				return
 			}
 		}
+		if tp.Intn("meddler", 4) == 3 {
+			// somebody else in the application keeps asking the same transport whether it is open and
+			// "opens" it again to be sure (ALREADY_OPEN): harmless calls that take the transport's lock
+			rc.Fault("redundant-open-and-isopen-calls-during-the-workload")
+			meddling = true
+			nMeddle := 1 + tp.Intn("meddler", 12)
+			s.Go("meddler", func() {
+				for i := 0; i < nMeddle && meddling; i++ {
+					settle(time.Duration(tp.Intn("meddler", 30)) * time.Millisecond)
+					if tp.Intn("meddler", 2) == 0 {
+						tr.Open()
+					} else {
+						tr.IsOpen()
+					}
+				}
+			})
+		}
 		for i := 0; i < nCallers; i++ {
 			i := i
 			var mine []*muxCall
@@ -381,6 +399,7 @@ func muxHarness(rc *RunCtx) {
 		for i := 0; i < nCallers; i++ {
 			simrt.Recv(siteDone, doneC)
 		}
+		meddling = false
 		// canary: a fresh request answered at once must complete (bounded
 		// progress after the adversarial prefix; "after": once injected stalls are over)
 		if b != nil {
@@ -654,6 +673,17 @@ func (m *muxState) check(tr frugal.FTransport, canary *muxCall, finished bool, b
 			}
 			if !beforeReturn {
 				rc.Violate("C01", "response-from-nowhere", m.kind, fmt.Sprintf("call %d succeeded but no frame for it had been delivered", c.id))
+			}
+			// promptly: simulated time passes only when nothing can run, so a caller whose response is readable
+			// returns in the same instant - unless something made it wait for somebody else's slowness
+			first := time.Duration(-1)
+			for _, d := range c.deliveries {
+				if d.deliveredAt >= 0 && (first < 0 || d.deliveredAt < first) {
+					first = d.deliveredAt
+				}
+			}
+			if first >= 0 && c.returnAt-first > 5*time.Millisecond && !stalled && !m.s.AnyStall(first, c.returnAt) {
+				rc.Violate("C06", "response-delivered-late", m.kind, fmt.Sprintf("call %d (timeout %v): its response was readable at %v, the call returned at %v", c.id, c.timeout, first, c.returnAt))
 			}
 		case isServiceNotAvailable(c.err):
 			got := false
